@@ -156,7 +156,7 @@ class Sim:
 
     def _make_client(self):
         c = self._base_config(True)
-        c.server_name = "localhost"
+        c.server_name = self.cfg.get("server_name") or "localhost"
         if self.cfg.get("smallcert"):
             c.load_verify_locations(cadata=small_certificate()["pem"])
         else:
@@ -467,8 +467,15 @@ class Sim:
                     if can and p["type"] == "1rtt":
                         # key phase: the receiver opens a packet of its current receive generation or of the next one
                         gens = self.obs.dir[d["src"]].app
-                        rg = next((g for g, ks in enumerate(gens) if any(k.secret == cr.recv.secret for k in ks)), None)
-                        can = rg is not None and p["gen"] in (rg, rg + 1)
+                        gen_of = lambda sec: next((g for g, ks in enumerate(gens) if any(k.secret == sec for k in ks)), None)
+                        rg = gen_of(cr.recv.secret)
+                        # after a key update the receiver itself initiated it keeps the previous read keys until the peer
+                        # uses the new ones (RFC 9001 6.1; aioquic since the repair 0120d2f): that generation opens too
+                        prev = getattr(cr, "_recv_previous", None)
+                        pg = gen_of(prev.secret) if prev is not None else None
+                        if rg is None and pg is not None:
+                            rg = pg + 1            # the observer has not seen the sender use that generation yet
+                        can = rg is not None and (p["gen"] in (rg, rg + 1) or (pg is not None and p["gen"] == pg))
                     if dst == "c" or p["type"] == "handshake":      # receive_datagram drops these when the CID is not (any longer) one of its own
                         can = can and any(bytes(p["dcid"]) == h.cid for h in conn._host_cids)
                     a = self.ev("arr", ep=dst, dg=d["id"], idx=j, space=p["space"], type=p["type"], pn=p["pn"],
